@@ -100,6 +100,72 @@ pub fn call(op: &str, e: &Ev) -> Option<Out> {
                 Out::Val(v)
             }
         },
+        "ge_ops2" => {
+            // operator impls and constants not reached by the other operations: -P, P +/- the precomputed identity
+            // (GePrecomp::ZERO is the only precomputed point a user can name), the identities in every representation
+            use cryptoxide::curve25519::GePrecomp;
+            let p = Ge::scalarmult_base(&Scalar::from_bytes(&a32(e, "p")));
+            let mut v = Vec::new();
+            v.extend_from_slice(&(-&p).to_bytes());
+            v.extend_from_slice(&(&p + &GePrecomp::ZERO).to_full().to_bytes());
+            v.extend_from_slice(&(&p - &GePrecomp::ZERO).to_full().to_bytes());
+            v.extend_from_slice(&(p.clone() - GePrecomp::ZERO.clone()).to_partial().to_bytes());
+            v.extend_from_slice(&Ge::ZERO.to_bytes());
+            v.extend_from_slice(&GePartial::ZERO.to_bytes());
+            v.extend_from_slice(&(&p + &Ge::ZERO.to_cached()).to_full().to_bytes());
+            v.extend_from_slice(&p.clone().to_partial().clone().to_bytes());
+            Out::Val(v)
+        }
+        "scalar_consts" => {
+            // Scalar::ZERO / ONE, derived equality and Clone
+            let s = Scalar::from_bytes(&a32(e, "bytes"));
+            let mut v = Vec::new();
+            v.extend_from_slice(&Scalar::ZERO.to_bytes());
+            v.extend_from_slice(&Scalar::ONE.to_bytes());
+            v.push((s == Scalar::ZERO) as u8);
+            v.push((s == Scalar::ONE) as u8);
+            v.push((s.clone() == s) as u8);
+            v.push((s != Scalar::ONE) as u8);
+            Out::Val(v)
+        }
+        "fe_consts" => {
+            // the public field constants, through their canonical encodings
+            let mut v = Vec::new();
+            for f in [&Fe::ZERO, &Fe::ONE, &Fe::SQRTM1, &Fe::D, &Fe::D2] {
+                v.extend_from_slice(&f.to_bytes());
+            }
+            Out::Val(v)
+        }
+        "x25519_conv" => {
+            // every conversion of the three byte wrappers, and the derived comparisons of PublicKey
+            use core::convert::TryFrom;
+            let (a, b) = (a32(e, "a"), a32(e, "b"));
+            let sk = x25519::SecretKey::from(a);
+            let ska: [u8; 32] = sk.into();
+            let ss = x25519::SharedSecret::from(a);
+            let ssa: [u8; 32] = ss.into();
+            let (pa, pb) = (x25519::PublicKey::from(a), x25519::PublicKey::from(b));
+            let paa: [u8; 32] = x25519::PublicKey::from(a).into();
+            let sk2 = x25519::SecretKey::try_from(&b[..]).unwrap();
+            let ss2 = x25519::SharedSecret::try_from(&b[..]).unwrap();
+            let mut v = Vec::new();
+            v.extend_from_slice(&ska);
+            v.extend_from_slice(&ssa);
+            v.extend_from_slice(&paa);
+            v.extend_from_slice(sk2.as_ref());
+            v.extend_from_slice(ss2.as_ref());
+            v.extend_from_slice(pb.as_ref());
+            v.push((pa == pb) as u8);
+            v.push((pa < pb) as u8);
+            v.push((pa.cmp(&pb) == core::cmp::Ordering::Greater) as u8);
+            Out::Val(v)
+        }
+        "ed_consts" => {
+            #[allow(deprecated)]
+            let s = ed25519::SEED_LENGTH;
+            Out::Val(vec![s as u8, ed25519::PRIVATE_KEY_LENGTH as u8, ed25519::PUBLIC_KEY_LENGTH as u8, ed25519::KEYPAIR_LENGTH as u8,
+                          ed25519::EXTENDED_KEY_LENGTH as u8, ed25519::SIGNATURE_LENGTH as u8])
+        }
         "ge_ops" => {
             // group law through every public representation: P, Q given as scalars of the base point
             let p = Ge::scalarmult_base(&Scalar::from_bytes(&a32(e, "p")));
@@ -149,6 +215,13 @@ pub fn run_feprog(_h: &Ev, evs: &mut Vec<Value>) {
                 "is_negative" => return out_bool(r[a].is_negative()),
                 "is_nonzero" => return out_bool(r[a].is_nonzero()),
                 "eq" => return out_bool(r[a] == r[b]),
+                "ne" => {
+                    use cryptoxide::constant_time::CtEqual;
+                    // != and the constant-time inequality must agree with each other (and with not ==)
+                    let x = r[a] != r[b];
+                    let y = (&r[a]).ct_ne(&r[b]).is_true();
+                    return Out::Val(vec![x as u8, y as u8]);
+                }
                 "to_bytes" => return Out::Val(r[a].to_bytes().to_vec()),
                 _ => return Out::Bad(format!("harness: unknown fe op {}", op)),
             };
